@@ -58,7 +58,14 @@ def run(ctx):
     vreal, vctl = verdicts[:len(lines)], verdicts[len(lines):]
     ctx.log("TLC judged %d cases" % len(lines))
 
+    # a control counts only if the real observation it was derived from was itself accepted (under a mutated tree
+    # the base observation may be the wrong one, and "corrupting" it may repair it)
+    accepted = {v["case"] for v in vreal if all(v["member"]) and all(v["post"])}
+    effective = 0
     for c, v in zip(controls, vctl):
+        if c["base"] not in accepted:
+            continue
+        effective += 1
         if any(v["member"]) or any(v["post"]):
             raise InfraError("binding control failed: corrupted observation %s was accepted (%s)" % (c["case"], v))
 
@@ -119,6 +126,8 @@ def run(ctx):
     if not violations and drift:
         raise InfraError("conformance drift: %d real outcome(s) satisfy the statement but are not admitted by "
                          "SyncDir.tla/SyncTree.tla (the spec no longer models the code; triage), e.g. %s" % (len(drift), drift[0]))
+    if effective < 3 and not violations:
+        raise InfraError("binding control: only %d effective corrupted observations" % effective)
     for need in ("ok", "err/writefail", "err"):
         if classes.get(need, 0) == 0 and not violations:
             raise InfraError("vacuity guard: no real outcome of class %r" % need)
@@ -138,7 +147,7 @@ def run(ctx):
             "distinct_real_outcomes": len(distinct_out),
             "cases_with_several_admissible_outcomes": multi_adm,
             "cases_where_several_outcomes_were_observed": multi_seen,
-            "binding_negative_controls_rejected": len(controls),
+            "binding_negative_controls_rejected": effective,
             "tree": tree["coverage"],
             "security_backends_end_to_end": be["observations"],
             "samples": samples,
